@@ -182,7 +182,9 @@ func (e *Env) evalBuiltin(name string, call *ast.CallExpr, st *State) Value {
 		}
 		return v
 	case "recover":
-		panic(outOfReach("recover"))
+		// panics are not unwound in this model: recover() yields an unknown value
+		c.note("recover() modelled as an unknown value; panic unwinding is not modelled")
+		return c.freshVar("recovered", SInt)
 	}
 	return e.opaque(call, st)
 }
@@ -389,7 +391,9 @@ func (e *Env) evalCallWith0(call *ast.CallExpr, st *State, args []Value) Value {
 		return e.opaque(call, st)
 	}
 	var recvVal Value
-	if cl.recv != nil {
+	if fc := e.fixed[call]; fc != nil && fc.hasRecv {
+		recvVal = fc.recv
+	} else if cl.recv != nil && !strings.HasPrefix(cl.full, "(*sync.") {
 		recvVal = e.eval(cl.recv, st)
 	}
 	// protocol layer (locks etc.)
@@ -422,6 +426,21 @@ func (e *Env) resultFresh(call *ast.CallExpr, st *State, cl callee) Value {
 }
 
 func (c *FCtx) contractFor(cl callee) *Contract {
+	ct := c.contractFor0(cl)
+	if c.LockSweep && ct != nil {
+		sc := sweepContract(ct)
+		if len(sc.Requires) == 0 && len(sc.Ensures) == 0 && len(sc.Extra) == 0 {
+			// nothing lock-related: treat as un-contracted (inlined or havoc)
+			if fi := c.W.ByObj[cl.fn]; fi != nil {
+				return nil
+			}
+		}
+		return sc
+	}
+	return ct
+}
+
+func (c *FCtx) contractFor0(cl callee) *Contract {
 	if cl.fn == nil {
 		return nil
 	}
@@ -470,11 +489,27 @@ func (c *FCtx) canInline(fi *FuncInfo) bool {
 	if ct := c.W.Specs.ByKey[fi.Key]; ct != nil {
 		return false
 	}
+	if c.LockSweep {
+		// in the lock sweep only callees that touch locks need to be looked into; the others are summarised by
+		// their write sets
+		if eff := c.W.effectsOf(fi.Obj); eff == nil || len(eff.Locks) == 0 {
+			n := 0
+			ast.Inspect(fi.Decl.Body, func(x ast.Node) bool {
+				if _, ok := x.(ast.Stmt); ok {
+					n++
+				}
+				return true
+			})
+			if n > 3 {
+				return false
+			}
+		}
+	}
 	hasLoop := false
 	n := 0
 	ast.Inspect(fi.Decl.Body, func(x ast.Node) bool {
 		switch x.(type) {
-		case *ast.ForStmt, *ast.RangeStmt, *ast.GoStmt, *ast.SelectStmt:
+		case *ast.ForStmt, *ast.RangeStmt, *ast.GoStmt, *ast.SelectStmt, *ast.LabeledStmt:
 			hasLoop = true
 		case *ast.FuncLit:
 			return false
@@ -487,14 +522,7 @@ func (c *FCtx) canInline(fi *FuncInfo) bool {
 		return false
 	}
 	// uses recover?
-	usesRecover := false
-	ast.Inspect(fi.Decl.Body, func(x ast.Node) bool {
-		if id, ok := x.(*ast.Ident); ok && id.Name == "recover" {
-			usesRecover = true
-		}
-		return true
-	})
-	return !usesRecover
+	return true
 }
 
 func (e *Env) inlineFunc(fi *FuncInfo, call *ast.CallExpr, st *State, cl callee, recvVal Value, args []Value) Value {
@@ -677,22 +705,20 @@ func (e *Env) inlineLit(lit *ast.FuncLit, call *ast.CallExpr, st *State, args []
 	return e.runInlined(ne, lit.Body, st, call, key)
 }
 
-// havocForCall forgets what an un-contracted, un-inlined callee may change.
+// havocForCall forgets what an un-contracted, un-inlined callee may change: the write set of everything the
+// call can reach in the call graph (dynamic calls resolved over the loaded packages).
 func (c *FCtx) havocForCall(e *Env, st *State, fn *types.Func, call *ast.CallExpr) {
-	if fn != nil {
-		if c.W.isPure(fn) {
-			return
-		}
-		if eff := c.W.effectsOf(fn); eff != nil && !eff.Unknown {
-			var keys []string
-			for k := range eff.Writes {
-				keys = append(keys, k)
-			}
-			c.havocWriteSet(st, keys)
-			return
-		}
+	eff := c.W.effectsOfCall(e.Info, call)
+	var keys []string
+	for k := range eff.Writes {
+		keys = append(keys, k)
 	}
-	c.havocAll(st, "call")
+	c.havocWriteSet(st, keys)
+	// allocation may have happened
+	old := c.heapGet(st, "$alloc", SInt)
+	n := c.freshVar("$alloc", SInt)
+	st.heap["$alloc"] = n
+	st.assume(IGe(n, old))
 	// locals captured by closures passed as arguments may change
 	for _, a := range call.Args {
 		if lit, ok := stripParens(a).(*ast.FuncLit); ok {
@@ -712,29 +738,19 @@ func (c *FCtx) havocForCall(e *Env, st *State, fn *types.Func, call *ast.CallExp
 	}
 }
 
-// havocWriteSet forgets heap keys matching the write set (prefix match on leaf paths).
+// havocWriteSet forgets heap keys matching the write set (a key or any leaf below it), including keys this
+// verification has not touched yet.
 func (c *FCtx) havocWriteSet(st *State, keys []string) {
-	var hit []string
-	all := map[string]bool{}
+	if len(keys) == 0 {
+		return
+	}
+	rec := &havocRec{name: c.freshName("hw"), prefixes: keys}
 	for k := range st.heap {
-		all[k] = true
-	}
-	for k := range c.keySorts {
-		all[k] = true
-	}
-	for k := range all {
-		if isGhostKey(k) || k == "$epoch" {
-			continue
-		}
-		for _, w := range keys {
-			if k == w || strings.HasPrefix(k, w+".") {
-				hit = append(hit, k)
-				break
-			}
+		if !isGhostKey(k) && rec.covers(k) {
+			delete(st.heap, k)
 		}
 	}
-	c.havocKeys(st, hit)
-	c.pendingWrites(st, keys)
+	st.hav = append(st.hav, rec)
 }
 
 // ---- contracts at call sites ----
@@ -828,6 +844,14 @@ func (e *Env) applyContract(call *ast.CallExpr, st *State, cl callee, ct *Contra
 		}
 		if i == 0 {
 			post.B.vals["result"] = TV{v, rv.Type()}
+		}
+	}
+	// "touches held(x.l), ...": lock counters the callee changes
+	for _, ex := range ct.Extra {
+		if ex.Kind == "touches" {
+			for _, item := range splitTopLevel(ex.Text, ',') {
+				c.touchLock(post, item, st)
+			}
 		}
 	}
 	// "defines f(args)": the real function is the definition of the extern spec function f
